@@ -13,6 +13,8 @@ import (
 	"os/exec"
 	"regexp"
 	"runtime"
+	"runtime/debug"
+	"runtime/metrics"
 	"strconv"
 	"strings"
 	"sync"
@@ -63,14 +65,17 @@ type line11 struct {
 	Step *step11 `json:"s,omitempty"`
 	Done bool    `json:"done,omitempty"`
 	Hello bool   `json:"hello,omitempty"` // the child is set up and starts working
+	Skip  bool   `json:"skip,omitempty"`  // not run: see violationCap
 	Loop string  `json:"loop,omitempty"` // non-empty: DefaultServer.Loop behaved differently from the rule applied here
 }
 
 // ---------------------------------------------------------------- worker (child process)
 
-// headroom of the child's RLIMIT_AS above what the Go runtime has reserved at start-up: a
-// multi-GiB make() kills the child at once instead of being zeroed page by page
-const workerHeadroom = 768 << 20
+// The child never collects garbage: a multi-GiB make() then always gets fresh address space
+// from the OS, which is neither zeroed nor touched (a block that is freed and re-used would be
+// cleared page by page: ~10 s and 4 GiB resident each). RLIMIT_AS is the safety net: a child
+// that runs out of it dies, and that death is an observation about the input it was parsing.
+const workerHeadroom = 1 << 40
 
 func limitAddressSpace() {
 	b, err := os.ReadFile("/proc/self/statm")
@@ -132,11 +137,14 @@ type flagCloser struct{ closed bool }
 func (f *flagCloser) Close() error { f.closed = true; return nil }
 
 func c11worker(e *env) {
+	runtime.GOMAXPROCS(2)
+	debug.SetGCPercent(-1)
 	log.SetOutput(io.Discard)
 	if dn, err := os.OpenFile(os.DevNull, os.O_WRONLY, 0); err == nil {
 		os.Stdout = dn
 	}
-	from, to, loopEvery := 0, -1, 0
+	from, to, loopEvery, stride := 0, -1, 0, 1
+	violationCap, violations := 1 << 30, 0
 	var inPath, outPath string
 	for _, a := range e.args {
 		switch {
@@ -146,13 +154,17 @@ func c11worker(e *env) {
 			to, _ = strconv.Atoi(a[3:])
 		case strings.HasPrefix(a, "loop="):
 			loopEvery, _ = strconv.Atoi(a[5:])
+		case strings.HasPrefix(a, "stride="):
+			stride, _ = strconv.Atoi(a[7:])
+		case strings.HasPrefix(a, "cap="):
+			violationCap, _ = strconv.Atoi(a[4:])
 		case strings.HasPrefix(a, "in="):
 			inPath = a[3:]
 		case strings.HasPrefix(a, "res="):
 			outPath = a[4:]
 		}
 	}
-	inputs := readInputs(inPath, from, to)
+	inputs := readInputs(inPath, from, to, stride)
 	if to < 0 || to > len(inputs) {
 		to = len(inputs)
 	}
@@ -177,10 +189,22 @@ func c11worker(e *env) {
 			}
 		}
 	}()
-	var ms runtime.MemStats
-	for i := from; i < to; i++ {
+	// bytes allocated on the heap so far (cumulative); large blocks are accounted at once,
+	// small objects when their per-P cache is refilled — precise enough for a 1 MiB slack,
+	// and it does not stop the world
+	sample := []metrics.Sample{{Name: "/gc/heap/allocs:bytes"}}
+	allocated := func() uint64 {
+		metrics.Read(sample)
+		return sample[0].Value.Uint64()
+	}
+	for i := from; i < to; i += stride {
 		atomic.StoreInt64(&cur, int64(i))
 		in := inputs[i]
+		inconsistent := in.Proto == "bin" && wire.Inconsistent(in.Wire)
+		if violations >= violationCap && inconsistent {
+			emit(line11{I: i, Skip: true, Done: true})
+			continue
+		}
 		rd := &segReader{data: in.Wire}
 		br := bufio.NewReader(rd)
 		p := newParser(in.Proto, br)
@@ -191,11 +215,9 @@ func c11worker(e *env) {
 				emit(line11{I: i, Step: &step11{Class: clNoProg, Err: "more Parse calls than input bytes"}})
 				break
 			}
-			runtime.ReadMemStats(&ms)
-			a0 := ms.TotalAlloc
+			a0 := allocated()
 			_, rt, perr, pan := callParse(p)
-			runtime.ReadMemStats(&ms)
-			st := step11{Alloc: ms.TotalAlloc - a0, Unread: br.Buffered() + rd.Left()}
+			st := step11{Alloc: allocated() - a0, Unread: br.Buffered() + rd.Left()}
 			switch {
 			case pan != nil:
 				st.Class, st.Err = clPanic, fmt.Sprint(pan)
@@ -207,6 +229,9 @@ func c11worker(e *env) {
 				st.Class, st.Err = clClose, perr.Error()
 			}
 			emit(line11{I: i, Step: &st})
+			if inconsistent && step == 0 && st.Alloc >= 1<<30 {
+				violations++
+			}
 			if st.Class == clReq || st.Class == clErr {
 				seq = append(seq, fmt.Sprintf("%d:%d", st.Class, st.Detail))
 			}
@@ -232,9 +257,9 @@ func c11worker(e *env) {
 	}
 }
 
-// readInputs decodes the lines from..to-1 of the inputs file (to < 0: all); the slice is indexed
-// by line number.
-func readInputs(path string, from, to int) []in11 {
+// readInputs decodes the lines from, from+stride, .. (< to; to < 0: to the end) of the inputs
+// file; the slice is indexed by line number.
+func readInputs(path string, from, to, stride int) []in11 {
 	f, err := os.Open(path)
 	if err != nil {
 		rig.Die("inputs: %v", err)
@@ -245,7 +270,7 @@ func readInputs(path string, from, to int) []in11 {
 	sc.Buffer(make([]byte, 1<<20), 1<<26)
 	for i := 0; sc.Scan(); i++ {
 		var in in11
-		if i >= from && (to < 0 || i < to) {
+		if i >= from && (to < 0 || i < to) && (i-from)%stride == 0 {
 			if err := json.Unmarshal(sc.Bytes(), &in); err != nil {
 				rig.Die("inputs: %v", err)
 			}
@@ -260,6 +285,7 @@ func readInputs(path string, from, to int) []in11 {
 var oomRe = regexp.MustCompile(`cannot allocate (\d+)-byte block`)
 
 type outcome11 struct {
+	skipped bool
 	steps []step11
 	loop  string
 	died  string // stderr of the worker when it died on this input
@@ -267,37 +293,42 @@ type outcome11 struct {
 
 // runWorkers processes inputs[lo:hi) in child processes; a child that dies is an observation
 // about the input it was working on, and a new child continues after it.
-func runWorkers(e *env, inPath string, n int, par int, loopEvery int) ([]outcome11, int) {
+//
+// violationCap: a frame with contradictory length fields that makes the parser allocate a GiB
+// or more is a violation of C11 by itself (and costs ~30 ms of kernel time and 4 MiB of heap
+// metadata); once a child has seen that many, it skips the remaining frames of that kind
+// (reported in the statistics), the verdict being settled.
+func runWorkers(e *env, ins []in11, inPath string, par int, loopEvery int, violationCap int) ([]outcome11, int) {
+	n := len(ins)
 	res := make([]outcome11, n)
 	var crashes int64
 	var wg sync.WaitGroup
-	per := (n + par - 1) / par
-	for k := 0; k < par; k++ {
-		lo, hi := k*per, (k+1)*per
-		if hi > n {
-			hi = n
-		}
-		if lo >= hi {
-			continue
-		}
+	// child k works on the inputs k, k+par, k+2*par, ... (the expensive ones are neighbours)
+	for k := 0; k < par && k < n; k++ {
 		wg.Add(1)
-		go func(k, lo, hi int) {
+		go func(k int) {
 			defer wg.Done()
 			resPath := fmt.Sprintf("%s/results_%d.jsonl", e.out, k)
 			os.Remove(resPath)
-			next := lo
-			for next < hi {
+			next := k
+			for next < n {
 				var off int64
 				if fi, serr := os.Stat(resPath); serr == nil {
 					off = fi.Size()
 				}
 				cmd := exec.Command(os.Args[0], "c11worker", "-out", e.out, "in="+inPath, "res="+resPath,
-					fmt.Sprintf("from=%d", next), fmt.Sprintf("to=%d", hi), fmt.Sprintf("loop=%d", loopEvery))
+					fmt.Sprintf("from=%d", next), fmt.Sprintf("to=%d", n), fmt.Sprintf("stride=%d", par), fmt.Sprintf("loop=%d", loopEvery))
+				cmd.Args = append(cmd.Args, fmt.Sprintf("cap=%d", violationCap))
+				cmd.Env = append(os.Environ(), "GOMAXPROCS=2", "GOGC=off")
 				var stderr bytes.Buffer
 				cmd.Stderr = &stderr
+				tc := time.Now()
 				err := cmd.Run()
-				// read everything reported so far
-				last, lastDone := next-1, true
+				if os.Getenv("VERIF_DEBUG") != "" {
+					fmt.Fprintf(os.Stderr, "worker %d from %d: %v in %v\n", k, next, err, time.Since(tc))
+				}
+				// read what this child reported
+				last, lastDone := -1, true
 				cur := map[int]*outcome11{}
 				hello := false
 				if f, ferr := os.Open(resPath); ferr == nil {
@@ -324,6 +355,9 @@ func runWorkers(e *env, inPath string, n int, par int, loopEvery int) ([]outcome
 						if l.I > last {
 							last, lastDone = l.I, false
 						}
+						if l.Skip {
+							o.skipped = true
+						}
 						if l.Done {
 							o.loop = l.Loop
 							if l.I == last {
@@ -337,7 +371,6 @@ func runWorkers(e *env, inPath string, n int, par int, loopEvery int) ([]outcome
 					res[i] = *o
 				}
 				if err == nil {
-					next = hi
 					break
 				}
 				if !hello {
@@ -345,11 +378,14 @@ func runWorkers(e *env, inPath string, n int, par int, loopEvery int) ([]outcome
 				}
 				// the child died: on the input after the last finished one
 				atomic.AddInt64(&crashes, 1)
-				victim := last
-				if lastDone {
-					victim = last + 1
+				victim := next
+				if last >= 0 {
+					victim = last
+					if lastDone {
+						victim = last + par
+					}
 				}
-				if victim >= hi {
+				if victim >= n {
 					break
 				}
 				o := res[victim]
@@ -362,9 +398,9 @@ func runWorkers(e *env, inPath string, n int, par int, loopEvery int) ([]outcome
 				}
 				o.died = tail(stderr.String(), 400)
 				res[victim] = o
-				next = victim + 1
+				next = victim + par
 			}
-		}(k, lo, hi)
+		}(k)
 	}
 	wg.Wait()
 	return res, int(crashes)
@@ -394,7 +430,7 @@ func gridInputs(tier string) []in11 {
 		k []int
 		e []int
 		t []uint32
-	}{[]int{0, 1, 250}, []int{0, 8, 255}, []uint32{0, 7, 9, 65535}}
+	}{[]int{0, 1, 250}, []int{0, 8, 255}, []uint32{0, 7, 9, 65535, 0xffffffff}}
 	body := func(k int) []byte {
 		// what a consistent sender would put first: 8 bytes of extras, the key (cut at 300), 3 bytes
 		n := k
@@ -423,6 +459,9 @@ func gridInputs(tier string) []in11 {
 		for _, k := range g.k {
 			for _, e := range g.e {
 				for _, t := range g.t {
+					if tier != "thorough" && t == 0xffffffff && !(inInts(reduced.k, k) && inInts(reduced.e, e)) {
+						continue // a consistent 4 GiB declaration costs as much as a bogus one; quick keeps 9 per opcode
+					}
 					add(op, k, e, t, true)
 				}
 			}
@@ -436,6 +475,15 @@ func gridInputs(tier string) []in11 {
 		}
 	}
 	return ins
+}
+
+func inInts(l []int, x int) bool {
+	for _, y := range l {
+		if x == y {
+			return true
+		}
+	}
+	return false
 }
 
 var lengthEdits = []uint32{0, 1, 2, 7, 8, 9, 23, 24, 255, 256, 65535, 65536, 0xffffffff, 0xfffffff7, 0x80000000}
@@ -598,7 +646,7 @@ func c11(e *env) {
 			rig.Die("%v", err)
 		}
 	}
-	par := 8
+	par := 13 // prime: the grid is periodic in 8 and 40
 	if len(ins) < 64 {
 		par = 1
 	}
@@ -607,13 +655,22 @@ func c11(e *env) {
 		loopEvery = 1
 	}
 	t0 := time.Now()
-	res, crashes := runWorkers(e, inPath, len(ins), par, loopEvery)
+	violationCap := 3 // per child
+	if e.tier == "thorough" {
+		violationCap = 60
+	}
+	res, crashes := runWorkers(e, ins, inPath, par, loopEvery, violationCap)
 	w.Res.Stats["seconds_workers"] = time.Since(t0).Seconds()
 	w.Res.Stats["worker_processes_died"] = crashes
 
 	reported := map[string]bool{}
+	skipped := 0
 	for i, in := range ins {
 		o := res[i]
+		if o.skipped {
+			skipped++
+			continue
+		}
 		if len(o.steps) == 0 {
 			w.Fail(rig.GoFailure{Kind: "broken-correspondence", What: "the worker reported nothing for this input", Input: in, Detail: o.died})
 			continue
@@ -683,7 +740,8 @@ func c11(e *env) {
 			Nontrivial: nontrivial,
 		})
 	}
-	w.Res.Exhaustive = !replay
+	w.Res.Stats["inconsistent_frames_skipped_after_violation_cap"] = skipped
+	w.Res.Exhaustive = !replay && skipped == 0
 	if err := w.Finish(imports, "case11", "check11"); err != nil {
 		rig.Die("%v", err)
 	}
